@@ -76,7 +76,7 @@ type hist struct {
 	h    *simval.History
 }
 
-var histKinds = []string{"reflect-sorted", "reflect-permuted", "extras-delete", "grow-shrink", "struct", "struct-empty-notnil", "unmarshal-shuffled", "clone", "merge", "overwrite"}
+var histKinds = []string{"reflect-sorted", "reflect-permuted", "extras-delete", "grow-shrink", "struct", "struct-empty-notnil", "unmarshal-shuffled", "clone", "merge", "overwrite", "reflect-truncate"}
 
 func marshalVariant(m proto.Message, api int, prefix []byte) (b []byte, err error) {
 	defer func() {
@@ -203,6 +203,10 @@ func run(c *simrun.Ctx) *simrun.Violation {
 			h.Overwrite = true
 			h.PermuteInserts = true
 			m, err = h.BuildReflect(av, mt)
+		case "reflect-truncate":
+			h.PermuteInserts = true
+			h.TruncateLists = true
+			m, err = h.BuildReflect(av, mt)
 		case "struct":
 			h.PermuteInserts = true
 			h.SizeHint = []int{0, 1, 64}[t.Draw("hint", 3)]
@@ -210,6 +214,7 @@ func run(c *simrun.Ctx) *simrun.Violation {
 			m, err = h.BuildStruct(av, mt)
 		case "struct-empty-notnil":
 			h.EmptyNotNil = true
+			h.EmptyCap = []int{0, 1, 4}[t.Draw("empty-cap", 3)]
 			h.PermuteInserts = true
 			m, err = h.BuildStruct(av, mt)
 		case "unmarshal-shuffled":
@@ -235,6 +240,7 @@ func run(c *simrun.Ctx) *simrun.Violation {
 		st.Add("history_"+kind, 1)
 		if err != nil {
 			st.Add("history_discarded_build_error", 1)
+			st.Add("history_discarded_build_error: "+kind+": "+clip(err.Error(), 90), 1)
 			c.Tracef("history %d (%s): discarded: %v", hi, kind, err)
 			continue
 		}
